@@ -156,6 +156,7 @@ theorem generateAst_eq_generate (es : List Entry) (hdoc : List Char) (h : astHea
       | .ok plans b => if badResults es then .fatal else .ok plans b) := by
   unfold generateAst generate
   rw [h]
+  rfl
 
 theorem astHeaders_single (pre post : List Entry) (d : List Char)
     (hpre : ∀ e ∈ pre, e.isMethod = true) (hpost : ∀ e ∈ post, e.isMethod = true) :
@@ -166,7 +167,7 @@ theorem astHeaders_single (pre post : List Entry) (d : List Char)
     intro e he
     cases e with
     | embed _ => have := hl _ he; simp [isMethod_embed] at this
-    | method .. => rfl
+    | method n' d' ps' rs' => simp
   have e1 : pre ++ Entry.embed (some d) :: post = pre ++ ([Entry.embed (some d)] ++ post) := rfl
   rw [e1, astHeaders_append, astHeaders_append, hm pre hpre, hm post hpost]
   simp [astHeaders]
